@@ -176,7 +176,7 @@ const ntRule = "; non-trivial = at least one fault fired or the seeded scheduler
 
 var props = map[string]propSpec{
 	"C01": storeProp("fault_enumeration", 50, 900, "one case = seeded ingest history (1-4 rounds of concurrent bulks/searches/fetches) + planned crash point (k-th write/sync/any mutating disk op on .docs/.meta, power-loss image with lost/torn tail, or process exit) + restart + validation against the model after every round; a fifth of the cases are the recovery sub-profile: crash inside the write of a large bulk (long torn tail), restart, 1-4 one-document bulks, power loss with little or nothing of the page cache surviving"+ntRule),
-	"C03": withVariants(storeProp("exploration", 60, 900, "one case = seeded corpus ingested into one fraction; the same battery (exact/wildcard/range/boolean searches both orders, limits, totals, histograms, aggregations, fetch lists with absent ids) is answered by the active fraction, the freshly sealed (preloaded) one, the one loaded from files after restart, after cache reset and during timer-driven cache eviction with readers overlapping; every answer must equal the model (hence each other); build variants of the on-disk block constants (default 64Ki/4Ki/16KiB, small 64/64/1KiB, tiny LIDBlockCap 8, 4 ids per block, 64 B blocks) so that postings, ID tables and token dictionaries straddle block boundaries with tens of documents; knob swarm over DocBlockSize, zstd level, SkipSortDocs, cache size 4KiB..256MiB"+ntRule), "small", "tiny"),
+	"C03": withVariants(storeProp("exploration", 60, 900, "one case = seeded corpus ingested into one fraction; the same battery (exact/wildcard/range/boolean searches both orders, limits, totals, histograms, aggregations, fetch lists with absent ids) is answered by the active fraction, the freshly sealed (preloaded) one, the one loaded from files after restart, after cache reset and during timer-driven cache eviction with readers overlapping; in a quarter of the cases once more around one transient read error (EIO on the index file, or on the documents file so that a fetch fails and the store goes on): a request may fail, an answer that is given must be complete, also afterwards; every answer must equal the model (hence each other); build variants of the on-disk block constants (default 64Ki/4Ki/16KiB, small 64/64/1KiB, tiny LIDBlockCap 8, 4 ids per block, 64 B blocks) so that postings, ID tables and token dictionaries straddle block boundaries with tens of documents; knob swarm over DocBlockSize, zstd level, SkipSortDocs, cache size 4KiB..256MiB"+ntRule), "small", "tiny"),
 	"C05": withVariants(clusterProp(45, 600, "one case = 1-3 shards x 1-3 replicas of real stores behind the real bulk.SeqDBClient and search.Ingestor on the simulated transport (seeded per-call latencies reorder shard replies); bulks are routed by the client's shuffled shard choice, per-store FracSize is small so rotation/sealing happen at different moments on different nodes, timestamps arrive out of order so fraction ranges overlap, FractionsPerIteration differs per store, optional seal/restart of a store; searches through the proxy: both orders, limits, totals, histograms, paging with sizes 1..8 walked page by page, documents stream; compared with the model over the union; in 30% of the cases some bulks also reach a second shard (documents present on several shards): listed once, paging exact, total/histogram exact when the listing covers the whole result; aggregation limits as shipped in half of the cases; every fourth seed is a store-level sub-profile: one store under continuous size-based retention, overlapping fractions, searches in chunks of 1-2 fractions that take simulated time, complete listings alternating with limits 1-8, oracle = soundness + acknowledged documents of fractions sealed before the search and still served after it are listed unless the listing is full and ends before them"+"; build variant tiny of the on-disk block constants (LIDBlockCap 8, 4 ids per block, 64 B blocks) in half of the runs so that sealed fractions have many blocks"+ntRule), "tiny"),
 	"C06": withVariants(clusterProp(45, 600, "same cluster as C05 with an aggregation/histogram-heavy battery: count/unique/sum/min/max/avg/quantile with and without group-by, histograms with intervals 1ms..60s, one aggregation in four as a time series with its own interval (7 ms..1 h, compared per group x bucket), final values computed by the proxy from the merged summaries; partial results of fractions are merged per store and shard replies are merged by the proxy in simulated arrival order; every bin compared with values computed directly from the matching documents (quantiles exactly, samples <= 8096); aggregation limits as shipped (per-source counting path) in half of the cases"+"; build variant tiny of the on-disk block constants (LIDBlockCap 8, 4 ids per block, 64 B blocks) in half of the runs so that sealed fractions have many blocks"+ntRule), "tiny"),
 	"C07": withVariants(storeProp("exploration", 50, 900, "one case = 1-4 writer and 1-4 reader clients (search+immediate fetch of hits, fetch of absent/border ids) concurrent with the real maintenance loop (rotate->seal->release, retention in a third of the runs) and cache cleaner; seeded scheduler pre-empts at every lock/channel/wait and at statement level in the index-update code; per-request soundness checks inside readers, full model equality once writers are idle; in a quarter of the cases some reader searches are built to fail inside the fractions (sum over a non-numeric field; 2-3 search workers); at every quiescent point no search worker slot may be taken (a slot never given back = deadlock by exhaustion, reported at the first)"+"; build variant tiny of the on-disk block constants (LIDBlockCap 8, 4 ids per block, 64 B blocks) in half of the runs so that sealed fractions have many blocks"+ntRule), "tiny"),
